@@ -2,12 +2,13 @@
 # trymutant.sh <patch.diff> <prop>...  : run the quick checks against a scratch worktree of /repo with the patch applied.
 # Nothing in /repo or /verif/evidence is touched.
 P="$1"; shift
+ROOT="$(cd "$(dirname "$0")/.." && pwd)"
 W=$(mktemp -d /tmp/mutwt-XXXXXX)
 git -C /repo worktree add -q --detach "$W" >/dev/null 2>&1 || exit 2
 trap 'git -C /repo worktree remove --force "$W" >/dev/null 2>&1; rm -rf "$W" "$O"' EXIT
 O=$(mktemp -d /tmp/mutout-XXXXXX)
 git -C "$W" apply "$P" || { echo "patch does not apply"; exit 2; }
 for id in "$@"; do
-  VERIF_REPO="$W" VERIF_OUT="$O" /verif/check "$id" quick >"$O/$id.log" 2>&1; rc=$?
+  VERIF_REPO="$W" VERIF_OUT="$O" "$ROOT/check" "$id" quick >"$O/$id.log" 2>&1; rc=$?
   echo "$id exit=$rc $(grep -m1 'rule=' "$O/$id.log" | cut -c1-160)"
 done
